@@ -2604,3 +2604,65 @@ func c18MirrorWritersCopy(p *Prog, r *Report, rule string) {
 		r.Hold(rule, "model/core#copies-carry-elements", "", "no copy into a zero-length slice")
 	}
 }
+
+// c06ReadersDoNotWrite (seeded C15-E): the guarded-by table of the version stores classifies File / Files / Len /
+// Latest / LastBefore / IterateBeforeSeq as reads, which callers perform under the store's read lock. The
+// classification is checked against the code: none of these methods (nor a same-package helper it calls)
+// assigns a field of its receiver, deletes from or clears one of its maps, or appends to one of its slices.
+func c06ReadersDoNotWrite(p *Prog, r *Report, rule string) {
+	n := 0
+	for _, op := range guardedOps() {
+		if op.Mode != "R" {
+			continue
+		}
+		for _, k := range op.Keys {
+			fi := p.Func(k)
+			if fi == nil {
+				continue
+			}
+			n++
+			bad := ""
+			for _, ev := range p.DeepLockEvents(fi, nil, 3) {
+				if ev.Kind != "fieldwrite" || ev.Field == nil || ev.Ctx == "go" {
+					continue
+				}
+				// a field of the type (or of a type of the same package) - locals of struct type excluded by IsField
+				if ev.Field.Pkg() != nil && ev.Field.Pkg().Path() == fi.Pkg.PkgPath {
+					where := ""
+					if ev.Node != nil {
+						where = p.pos(ev.Node)
+					}
+					bad = where + " writes the field " + ev.Field.Name()
+				}
+			}
+			r.Check(bad == "", rule, k+"#read-operation-does-not-write", p.pos(fi.Decl), "no field of the store is written",
+				k+" is used as a read (callers hold the store's read lock only) but "+bad+": two concurrent readers write shared state - a data race on first use")
+		}
+	}
+	r.Floor(rule, "read-operations-of-the-version-stores", n, 5)
+}
+
+// c14CollectorVisitsEveryKey (seeded C14-E): a collector pass examines every key of the store: in core.DeleteOld
+// every iteration of the loop over the store's keys walks the key's versions before the horizon
+// (IterateBeforeSeq); no key is skipped on the strength of what an earlier pass - with another horizon - did.
+func c14CollectorVisitsEveryKey(p *Prog, r *Report, rule string) {
+	fi := p.Func(kCoreDeleteOld)
+	if fi == nil {
+		return
+	}
+	info := fi.Pkg.TypesInfo
+	found, bad := loopVisitsEvery(p, fi, func(e ast.Expr) bool {
+		c, ok := ast.Unparen(e).(*ast.CallExpr)
+		return ok && p.callIs(fi.Pkg, c, kTxFiles)
+	}, callPred{name: "walks-versions", fn: func(pkg *packages.Package, c *ast.CallExpr) bool {
+		return p.callIs(pkg, c, kIterBefore)
+	}})
+	_ = info
+	cons := kCoreDeleteOld + "#every-key-examined"
+	if !found {
+		r.Undecided(rule, cons, p.pos(fi.Decl), "no range loop over the store's keys")
+		return
+	}
+	r.Check(bad == "", rule, cons, p.pos(fi.Decl), "every key is examined in every pass",
+		bad+": a key can be skipped by a collector pass; versions that an earlier pass had to keep (an open transaction pinned them) are never looked at again once that transaction has ended, and their contents stay on disk until the key is written again")
+}
